@@ -21,6 +21,8 @@ def check(ctx):
   r2(ctx)
   r3(ctx)
   add_remove_atomic(ctx)
+  from . import c03 as _c03
+  _c03.find_node(ctx, 'C05.R3')
 
 
 def r1(ctx):
